@@ -145,9 +145,10 @@ NODE_Q = [  # (entry, unwind, tier, about)
     ('n16_find_5', 20, 'quick'), ('n16_find_11', 20, 'quick'), ('n16_find_16', 20, 'quick'), ('n16_add_5', 20, 'quick'), ('n16_add_15', 20, 'quick'),
     ('n16_rem_6_0', 20, 'quick'), ('n16_rem_16_7', 20, 'quick'), ('n16_rem_16_15', 20, 'quick'),
     ('n48_find', 260, 'quick'), ('n48_ends', 260, 'quick'), ('n48_rem_first', 260, 'quick'), ('n48_rem_mid', 260, 'quick'),
-    ('n48_add', 260, 'thorough'), ('n48_step', 260, 'thorough'), ('n48_bound', 260, 'thorough'),
-    ('n256_find', 260, 'quick'), ('n256_ends', 260, 'quick'), ('n256_add_remove', 260, 'quick'), ('n256_step', 260, 'thorough'), ('n256_bound', 260, 'thorough')]
-NODE_ABOUT = {'find': 'find_child + begin/last/next/prior/gte/lte', 'add': 'add_to_nonfull of an absent key byte', 'rem': 'remove of one child',
+    ('n48_add', 260, 'quick'), ('n48_step', 260, 'thorough'), ('n48_bound', 260, 'thorough'),
+    ('n256_find', 260, 'quick'), ('n256_ends', 260, 'quick'), ('n256_add_remove', 260, 'quick'), ('n256_step', 260, 'thorough'), ('n256_bound', 260, 'thorough')] + \
+    [('n%s_enum_%s' % (c_, k_), 260, 'quick') for c_ in ('48', '256') for k_ in ('00', '01', '7F', '80', '81', 'FE', 'FF')]
+NODE_ABOUT = {'enum': 'find_child/next/prior/gte/lte for a concrete probe byte from the boundary classes, node content a symbolic bitmap', 'find': 'find_child + begin/last/next/prior/gte/lte', 'add': 'add_to_nonfull of an absent key byte', 'rem': 'remove of one child',
               'ends': 'begin()/last()', 'step': 'next()/prior() from a symbolic position', 'bound': 'gte_key_byte()/lte_key_byte() of a symbolic probe', 'add_remove': 'add then remove'}
 
 
@@ -158,11 +159,16 @@ def node_queries(config='base', tier_all=None, only_prefix=None):
     for entry, unwind, tier in NODE_Q:
         cls = entry.split('_')[0]
         op = '_'.join(x for x in entry.split('_')[1:] if not x.isdigit()) or 'find'
-        heavy = tier == 'thorough'
+        heavy = tier == 'thorough' or entry == 'n48_add'
         qs.append(Query('node-' + entry + sfx, u, entry, unwind=unwind, flags=['--max-field-sensitivity-array-size', '512'],
                         loop_bounds=[('^n48_add$', 20)], tier=tier_all or tier, timeout=3400 if heavy else None, mem_gb=40 if heavy else None, weight=4 if heavy else 1,
                         about='%s node in an arbitrary valid state (all key bytes symbolic, child count fixed by the query), %s' % (cls.upper().replace('N', 'I'), NODE_ABOUT.get(op, op)),
                         bounds={'node': cls, 'children': entry, 'key_bytes': 'all symbolic'}))
+    for entry in ('n48_addslot_46', 'n48_addslot_33'):
+        qs.append(Query('node-' + entry + sfx, u, entry, unwind=260, flags=['--max-field-sensitivity-array-size', '512'], checks='pointer',
+                        loop_bounds=[('do_add48', 8)], tier=tier_all or 'quick', weight=2,
+                        about='I48 free-slot search: %s children at concrete key bytes, two symbolic hole positions over all 48 slots, pointer/bounds checks on' % entry.split('_')[-1],
+                        bounds={'node': 'n48', 'children': entry, 'holes': 'symbolic'}))
     return qs
 
 
@@ -243,11 +249,14 @@ def c02():
 
 def c16():
     qs = []
-    QN = {'n4_find_3', 'n4_find_4', 'n4_add_3', 'n4_rem_4_1', 'n16_find_5', 'n16_find_16', 'n16_add_5', 'n16_add_15', 'n16_rem_16_7', 'n48_find', 'n48_rem_mid', 'n256_find', 'n256_add_remove'}
+    QN = {'n48_addslot_46', 'n4_find_3', 'n4_find_4', 'n4_add_3', 'n4_rem_4_1', 'n16_find_5', 'n16_find_16', 'n16_add_5', 'n16_add_15', 'n16_rem_16_7', 'n48_find', 'n48_rem_mid', 'n256_find', 'n256_add_remove'}
+    qs += [q for q in node_queries('base') if 'addslot_46' in q.name or q.entry in ('n16_add_15', 'n16_find_16', 'n4_add_3')]   # the AVX2 side of the comparison for the SIMD-heavy kernels
     for cfg in ('sse', 'debug', 'ssedebug'):
         for q in node_queries(cfg):
             if q.tier == 'quick' and not (q.entry in QN and cfg in ('sse', 'debug')):
                 q.tier = 'thorough'
+            if 'addslot' in q.entry and 'debug' in cfg:
+                continue      # measured: the assertion loops of the debug build push this instance beyond 24 GB
             qs.append(q)
     QT = {'get_leaf', 'get_i4_3', 'get_i16_5', 'get_2lvl', 'get_3lvl', 'ins_leaf', 'rem_leaf', 'rem_i4_2'}
     for cfg in ('sse', 'debug', 'nostats', 'ssedebug'):
@@ -326,6 +335,10 @@ def stats_queries(kind='db', config='base'):
                             bounds={'prelude': name, 'key_bits': 64}))
     for h in ('clr_i4_3', 'clr_i4_3x', 'clr_i16_5', 'clr_2lvl'):
         qs.append(Query(h + sfx, u, h, unwind=10, flags=['--slice-formula'], about='clear() on a concrete tree: everything zero, every block returned'))
+    ub = U('fault.cpp', config, defines=['DBKIND=%d' % DBKINDS[kind]], max_node_type=4)
+    for h in ('clr_i48_hole', 'clr_i48_hole_last', 'clr_i256_hole'):
+        qs.append(Query(h + sfx, ub, h, unwind=60, unwindset=['m_memset.0:2100'], flags=['--slice-formula'], loop_bounds=[('::(get|insert|remove)_internal', 4), ('delete_subtree', 260), ('basic_inode_256<.*>', 260), ('inode_256', 260)],
+                        about='I48 / I256 built by 18-52 concrete inserts, one removal leaving a hole, then clear(): every block returned', bounds={'tree': 'concrete'}))
     qs.append(Query('rt_leaf' + sfx, u, 'rt_leaf', unwind=10, flags=['--slice-formula'], loop_bounds=[('::(get|insert|remove)_internal', 3)], tier='thorough', timeout=3400, mem_gb=40, weight=4,
                     about='insert(k); remove(k) with symbolic k restores all current-state getters'))
     return qs
